@@ -10,7 +10,7 @@ CONSTANTS
  SmudgedWT = FALSE
 SPECIFICATION Spec
 VIEW View
-INVARIANT RemoteComplete
+INVARIANT RemoteCompleteX
 INVARIANT RefsOnlyAfterObjects
 ACTION_CONSTRAINT EmitEdge
 CHECK_DEADLOCK FALSE
